@@ -1100,7 +1100,7 @@ def gen_spec(run_seed, prop, pool, hashseeds, knobs=None):
                 if kind == "serialize":
                     ops.append({"op": "serialize", "arg": 2 * j + 1})
                 elif kind == "write":
-                    ops.append({"op": "write", "arg": 2 * j + r2.randrange(2), "calc": False})
+                    ops.append({"op": "write", "arg": 2 * j + r2.randrange(2), "calc": r2.random() < 0.3})
                 else:
                     ops.append({"op": "canon", "arg": 2 * j + r2.randrange(2)})
             threads.append(ops)
